@@ -51,10 +51,13 @@ class Case:
     def build(self):
         st = R.structures(*self.structs, scalars=self.scalars or None)
         self.struct_dict = st
-        self.pipe = R.Pipeline(self.ast, st, scalar_values=self.scalar_values)
+        self.pipe = R.Pipeline(self.ast, st, scalar_values=self.scalar_values, tp_format=self.opts.get("tp_format", "vtl"))
         self.ctx = ctx = Ctx()
         if self.opts.get("years"):
             ctx.year_range = tuple(self.opts["years"])
+        if self.opts.get("int64"):
+            ctx.int64 = True
+            self.opts.setdefault("int_bound", 2 ** 63)
         used = set()
         for name, sql, _ in self.pipe.queries:
             try:
@@ -152,7 +155,7 @@ class Case:
                             y, i_, n_ = self._rand_tp(rng, self.opts.get("ind"))
                             asg[sv.fields["year"].val], asg[sv.fields["ind"].val], asg[sv.fields["num"].val] = y, i_, n_
                         else:
-                            asg[sv.val] = self._rand_val(rng, sv.kind, role)
+                            asg[sv.val] = self._rand_val(rng, "int64" if sv.kind == "int" and self.opts.get("int64") else sv.kind, role)
             subs = [(k, _z3val(k, v)) for k, v in asg.items()]
             ok = _simp(z3.substitute(z3.And(*self.ctx.assume), *subs)) if self.ctx.assume else z3.BoolVal(True)
             if z3.is_true(ok):
@@ -190,6 +193,8 @@ class Case:
     def _rand_val(rng, kind, role):
         if kind == "int":
             return rng.choice([0, 1, 2, 3, -1, -2, 5, 7]) if role != "Identifier" else rng.choice([1, 2, 3])
+        if kind == "int64":
+            return rng.choice([0, 1, -1, 3, 2 ** 62, -2 ** 62, 2 ** 63 - 1, -2 ** 63, 2 ** 32, -2 ** 31, 3037000500]) if role != "Identifier" else rng.choice([1, 2, 3])
         if kind == "real":
             return fractions.Fraction(rng.choice([0, 1, 2, 3, -1, -3, 5, 9, 1, 4]), rng.choice([1, 1, 2, 4]))
         if kind == "bool":
@@ -255,7 +260,7 @@ class Case:
         finally:
             conn.close()
 
-    def selfcheck(self, samples=6, seed=0):
+    def selfcheck(self, samples=6, seed=0, err_overapprox=False):
         """Compare the encoding with real DuckDB on random concrete tables.
         -> (n_compared_cells, n_skipped_uf_cells, mismatches list)"""
         rng = random.Random(seed)
@@ -270,6 +275,11 @@ class Case:
             err = _simp(z3.substitute(self.ctx.error_flag(lambda t: not t.startswith("nonfinite")), *subs))
             sym_err = z3.is_true(err)
             real_err = any(isinstance(v, tuple) and v[0] == "error" for v in real.values())
+            if err_overapprox and sym_err and not real_err:
+                # error events over-approximate: DuckDB evaluates projections lazily (a failing expression in a row that a later join /
+                # filter / projection discards may never run); accepted only by the error-site analysis (C32), which confirms every site
+                # on the real engine
+                continue
             if sym_err != real_err:
                 mism.append(dict(sample=k, inputs=_jsonable(cin), what="error flag: encoding %s, DuckDB %s" % (sym_err, [v for v in real.values() if v[0] == "error"])))
                 continue
